@@ -671,8 +671,14 @@ def install(I):
         name = w.obj('ds', id(d), init=(d.pres, d.val))
         return name
 
+    def _sp(I, label, ins):
+        sp = getattr(I, 'sync_point', None)
+        if sp is not None:
+            sp(label, ins)
+
     def ds_get(I, args, ins):
         d, ctx, k = args
+        _sp(I, 'ds.Get', ins)
         kt = keyterm(I, k)
         w = bmc_world(I)
         if w is not None:
@@ -704,6 +710,7 @@ def install(I):
 
     def ds_has(I, args, ins):
         d, ctx, k = args
+        _sp(I, 'ds.Has', ins)
         w = bmc_world(I)
         if w is not None:
             from .. import bmc
@@ -715,6 +722,7 @@ def install(I):
 
     def ds_put(I, args, ins):
         d, ctx, k, v = args
+        _sp(I, 'ds.Put', ins)
         kt, vt = keyterm(I, k), I.bytes_term(v)
         w = bmc_world(I)
         if w is not None:
@@ -727,6 +735,7 @@ def install(I):
 
     def ds_delete(I, args, ins):
         d, ctx, k = args
+        _sp(I, 'ds.Delete', ins)
         kt = keyterm(I, k)
         w = bmc_world(I)
         if w is not None:
@@ -755,6 +764,7 @@ def install(I):
 
     def batch_commit(I, args, ins):
         b, ctx = args
+        _sp(I, 'ds.Commit', ins)
         ops = list(b.ops)
         b.ops = []
         w = bmc_world(I)
@@ -795,6 +805,7 @@ def install(I):
         return -1
 
     def ks_get(I, args, ins):
+        _sp(I, 'keystore.Get', ins)
         ks, name = args
         i = ks_find(I, ks, name)
         if i < 0:
@@ -802,10 +813,12 @@ def install(I):
         return (ks.items[i][1], None)
 
     def ks_has(I, args, ins):
+        _sp(I, 'keystore.Has', ins)
         ks, name = args
         return (ks_find(I, ks, name) >= 0, None)
 
     def ks_put(I, args, ins):
+        _sp(I, 'keystore.Put', ins)
         ks, name, key = args
         if ks_find(I, ks, name) >= 0:
             return sentinel(I, 'github.com/ipfs/go-ipfs-keystore.ErrKeyExists')
@@ -821,6 +834,7 @@ def install(I):
         return None
 
     def ks_delete(I, args, ins):
+        _sp(I, 'keystore.Delete', ins)
         ks, name = args
         i = ks_find(I, ks, name)
         if i < 0:
